@@ -366,7 +366,7 @@ impl Engine for C02 {
     }
     fn runs(&self, tier: Tier) -> u64 {
         match tier {
-            Tier::Quick => 6_000,
+            Tier::Quick => 40_000,
             Tier::Thorough => 300_000,
         }
     }
